@@ -392,11 +392,9 @@ func c14Big(c *mc.Ctx) {
 		l int
 	}
 	var joins []jj
-	for p := uint(10); p <= 14; p++ {
-		for _, d := range []int{-1, 0, 1, 7, 8, 9} {
-			for _, w := range c14Widths {
-				joins = append(joins, jj{w, 1<<p + d})
-			}
+	for _, l := range gen.SizesAround(10, 14, []int{-1, 0, 1, 7, 8, 9}) {
+		for _, w := range c14Widths {
+			joins = append(joins, jj{w, l})
 		}
 	}
 	c.Expect(int64(len(joins)))
@@ -411,10 +409,8 @@ func c14Big(c *mc.Ctx) {
 	})
 	type sj struct{ l int }
 	var slices []sj
-	for p := uint(10); p <= 12; p++ {
-		for _, d := range []int{-1, 0, 1, 9} {
-			slices = append(slices, sj{1<<p + d})
-		}
+	for _, l := range gen.SizesAround(10, 12, []int{-1, 0, 1, 9}) {
+		slices = append(slices, sj{l})
 	}
 	c.Par(len(slices), func(i int) {
 		l := slices[i].l
